@@ -3,7 +3,8 @@
 Complete product  nf 3-6 x QED orders (1..4, 1..2) x N3LO variant x variation tuples x 12 complex N.
 Oracle: the QCD entry points themselves (gamma_singlet, gamma_ns) for the pure-QCD slots - the statement
 *is* an equality between two public functions - exact zeros for the photon, exact charge ratios typed
-here (e_u^2 = 4/9, e_d^2 = 1/9) for the pure-QED non-singlet slots.
+here (e_u^2 = 4/9, e_d^2 = 1/9) for the pure-QED non-singlet slots, and the abelian limit of the QCD
+non-singlet functions (CF, TR typed here) for the functions multiplying the charges.
 """
 
 import math
@@ -21,17 +22,24 @@ LEVEL_TEXT = (
     "arguments (singlet block, Sdelta = ns+, valence = ns_v, Vdelta = ns-), the photon row and column and "
     "the (0,0) slot are required to vanish identically, and the up/down non-singlet entries at O(aem), "
     "O(as aem) have to be in the ratio e_u^2 : e_d^2 while at O(aem^2) they have to be e_q^2 (e_q^2 A(N) + "
-    "e_Sigma^2(nf) B(N)) with the same A, B for both charges and all nf"
+    "e_Sigma^2(nf) B(N)) with the same A, B for both charges and all nf; the functions themselves are anchored "
+    "in the QCD ones by the abelian limit: O(aem) = e_q^2 gamma_ns^(1,0)/CF, A = slot(1,1)/(2 CF e_q^2), "
+    "B = nf-term of gamma_ns^(2,0) / (CF TR), so the absolute charges 4/9, 1/9 are decided, not only their ratio"
 )
 LEVEL_NOTE = (
     "equalities are between two code paths of ekore evaluated in double precision (tolerance 1e-12 "
     "relative to the largest entry of the slot, at least 1); decided on the lattice only; the O(aem^2) structure is "
-    "the reading of 'charge-squared multiples of the same function' that is true of the physical kernels"
+    "the reading of 'charge-squared multiples of the same function' that is true of the physical kernels; the "
+    "abelian-limit anchors (CF -> e_q^2, CA -> 0, TR nf -> NC sum e_q^2) use CF=4/3, TR=1/2 typed here and eko's QCD "
+    "non-singlet functions; the O(as aem) function is tied to the O(aem^2) one but has no anchor of its own; the "
+    "recorded defect of the FHMRUVV (4,0) Sdelta entry is pinned to its model (entry = ns+ with variation[4]:=variation[3], "
+    "only for use_fhmruvv and variation[3]!=variation[4]); any other failure of that entry is a violation"
 )
 FLOOR_NONTRIVIAL = 50
 
 EU2, ED2 = 4.0 / 9.0, 1.0 / 9.0
 NC = 3.0
+CF, TR = 4.0 / 3.0, 0.5  # typed here (SU(3)); used only to take the abelian limit of the QCD non-singlet functions
 RTOL = 1e-12
 NLAT = [
     2.0,
@@ -68,8 +76,13 @@ class _Cmp:
         self.n = 0
         self.maxrel = 0.0
         self.maxpass = 0.0
+        self.nknown = 0
+        self.maxmodel = 0.0
 
-    def eq(self, sig, got, ref, scale, what):
+    def eq(self, sig, got, ref, scale, what, known_model=None, beyond=""):
+        """`known_model`: the value the recorded defect of this entry produces (None outside the class of inputs
+        where that defect exists).  A failure keeps the listed signature `sig` only if the entry equals that model
+        within RTOL; every other failure of the entry is reported as `sig + beyond`."""
         self.n += 1
         got, ref = complex(got), complex(ref)
         d = abs(got - ref)
@@ -78,11 +91,19 @@ class _Cmp:
             return
         scale = max(scale, 1.0)  # near N=1 the non-singlet entries cancel to ~1e-2: compare on the O(1) natural size
         rel = d / scale
+        if rel > RTOL and known_model is not None:
+            dm = abs(got - complex(known_model)) / scale
+            if dm <= RTOL:
+                # the recorded defect, exactly: counted, kept out of the measured maxima
+                self.nknown += 1
+                self.maxmodel = max(self.maxmodel, dm)
+                self.res.fail(sig, f"{self.where} {what}: grid={got} reference={ref} relative difference {rel:.3e}")
+                return
         self.maxrel = max(self.maxrel, rel)
         if rel <= RTOL:
             self.maxpass = max(self.maxpass, rel)
         if rel > RTOL:
-            self.res.fail(sig, f"{self.where} {what}: grid={got} reference={ref} relative difference {rel:.3e}")
+            self.res.fail(sig + beyond, f"{self.where} {what}: grid={got} reference={ref} relative difference {rel:.3e}")
 
     def zero_exact(self, sig, got, what):
         self.n += 1
@@ -99,6 +120,8 @@ def _grid_case(case):
     n_eval = 0
     maxrel = 0.0
     maxpass = 0.0
+    nknown = 0
+    maxmodel = 0.0
     for var in [tuple(case["variation"])]:
         for Nraw in NLAT:
             N = Nraw
@@ -147,7 +170,20 @@ def _grid_case(case):
                     cmp.eq(sig + "/gq", m[0, 2], q[1, 0], sc, "gq")
                     cmp.eq(sig + "/qg", m[2, 0], q[0, 1], sc, "qg")
                     cmp.eq(sig + "/qq", m[2, 2], q[0, 0], sc, "qq")
-                    cmp.eq(sig + "/Sdelta-is-ns+", m[3, 3], nsp[k - 1], sc, "Sdelta.Sdelta vs gamma_ns(10101)")
+                    # recorded defect (known_findings: singlet_qed/slot=(4,0)/Sdelta-is-ns+): the FHMRUVV N3LO grid
+                    # builds the Sdelta entry with variation[3] ('qq') instead of variation[4] ('nsp').  It exists
+                    # only for k=4, use_fhmruvv=True, variation[3] != variation[4], and then the entry equals
+                    # gamma_ns+ evaluated with variation[4] := variation[3].  Anything else is a new failure.
+                    model, beyond = None, ""
+                    if k == 4:
+                        beyond = f"/beyond-known/fhmruvv={fh}/var[3]{'!=' if var[3] != var[4] else '=='}var[4]"
+                        if fh and var[3] != var[4]:
+                            varm = tuple(var[3] if i == 4 else v for i, v in enumerate(var))
+                            model = ad.gamma_ns(qorder, 10101, N, nf, varm, fh)[3]
+                    cmp.eq(
+                        sig + "/Sdelta-is-ns+", m[3, 3], nsp[k - 1], sc, "Sdelta.Sdelta vs gamma_ns(10101)",
+                        known_model=model, beyond=beyond,
+                    )
                     for a in range(4):
                         cmp.zero_exact(sig + "/photon-row", m[1, a], f"[ph,{a}]")
                         cmp.zero_exact(sig + "/photon-column", m[a, 1], f"[{a},ph]")
@@ -202,9 +238,29 @@ def _grid_case(case):
                             max(abs(u) * ED2, abs(d) * EU2),
                             f"up={u} down={d}: up*e_d^2 vs down*e_u^2",
                         )
+                # the function itself at O(aem): abelian limit of the leading-order QCD non-singlet anomalous
+                # dimension, gamma^(0,1)_q = e_q^2 gamma_ns^(1,0) / CF (absolute charges, not only their ratio)
+                for mode, e2, name in ((10102, EU2, "ns+u"), (10103, ED2, "ns+d"), (10202, EU2, "ns-u"), (10203, ED2, "ns-d")):
+                    want = e2 * nsp[0] / CF
+                    cmp.eq(
+                        f"ns_qed/{name}/slot=(0,1)/is-abelian-limit-of-(1,0)",
+                        g[mode][0, 1],
+                        want,
+                        abs(want),
+                        f"vs e_q^2 gamma_ns((1,0),10101)[0]/CF with e_q^2={e2:.6g}",
+                    )
             maxrel = max(maxrel, cmp.maxrel)
             maxpass = max(maxpass, cmp.maxpass)
-    res.info = {"max_rel_difference": maxrel, "max_rel_difference_of_passing_comparisons": maxpass, "grids": n_eval, "refused": refused}
+            nknown += cmp.nknown
+            maxmodel = max(maxmodel, cmp.maxmodel)
+    res.info = {
+        "max_rel_difference": maxrel,
+        "max_rel_difference_of_passing_comparisons": maxpass,
+        "max_rel_difference_from_model_of_known_defect": maxmodel,
+        "known_defect_comparisons": nknown,
+        "grids": n_eval,
+        "refused": refused,
+    }
     res.nontrivial = n_eval > 0
     res.outcome = ("fail" if res.fails else "ok") + (":refused-consistently" if refused and not n_eval else "")
     if refused and n_eval <= 2 * refused:
@@ -219,6 +275,7 @@ def _aem2_case(case):
     N = _N(case["N"])
     res = Result()
     maxrel = 0.0
+    max_anchor = 0.0
     n = 0
     for name, mu, md in (("ns+", 10102, 10103), ("ns-", 10202, 10203)):
         rows, rhs = [], []
@@ -251,7 +308,51 @@ def _aem2_case(case):
                     f"N={N} nf={nf} mode={mode}: gamma/e_q^2={v} but e_q^2 A + e_Sigma^2 B = {pred} "
                     f"(A={A}, B={B} fixed at nf=3); relative {rel:.3e}",
                 )
-    res.info = {"max_rel_aem2_structure": maxrel, "predictions": n}
+        # ---- the functions themselves (abelian limit CF -> e_q^2, CA -> 0, TR nf -> NC sum e_q'^2 of the QCD ones):
+        #   A(N) = gamma^(1,1)_q / (2 CF e_q^2)        (the CF^2 part of gamma_ns^(1), as carried by the O(as aem) slot)
+        #   B(N) = [gamma_ns^(2,0)(nf+1) - gamma_ns^(2,0)(nf)] / (CF TR)   (the nf part of gamma_ns^(1), same for ns+ and ns-)
+        qmode = 10101 if name == "ns+" else 10201
+        for e2q, es2, nf, mode in rows:
+            try:
+                g11 = ad.gamma_ns_qed((1, 2), mode, N, nf, (0,) * 7)[1, 1]
+                q_hi = ad.gamma_ns((2, 0), qmode, N, nf + 1, (0,) * 7)[1]
+                q_lo = ad.gamma_ns((2, 0), qmode, N, nf, (0,) * 7)[1]
+            except Exception as e:  # noqa
+                res.fail(f"ns_qed/{name}/slot=(0,2)/anchor-raises", f"N={N} nf={nf} mode={mode}: {type(e).__name__}: {e}")
+                continue
+            A_ref = g11 / (e2q * 2.0 * CF)
+            B_ref = (q_hi - q_lo) / (CF * TR)
+            sc_a = max(abs(A_ref), abs(A), 1.0)
+            sc_b = max((abs(q_hi) + abs(q_lo)) / (CF * TR), abs(B), 1.0)
+            n += 2
+            ra, rb = abs(A - A_ref) / sc_a, abs(B - B_ref) / sc_b
+            max_anchor = max(max_anchor, ra, rb)
+            if not ra <= 1e-11:
+                res.fail(
+                    f"ns_qed/{name}/slot=(0,2)/A-is-(1,1)/2CF",
+                    f"N={N} nf={nf} mode={mode}: A (from the nf=3 entries of slot (0,2)) = {A} but "
+                    f"slot(1,1)/(2 CF e_q^2) = {A_ref}; relative {ra:.3e}",
+                )
+            if not rb <= 1e-11:
+                res.fail(
+                    f"ns_qed/{name}/slot=(0,2)/B-is-nf-term-of-(2,0)",
+                    f"N={N} nf={nf} mode={mode}: B (from the nf=3 entries of slot (0,2)) = {B} but "
+                    f"[gamma_ns((2,0),{qmode},nf+1)-gamma_ns((2,0),{qmode},nf)]/(CF TR) = {B_ref}; relative {rb:.3e}",
+                )
+            # and the entry itself, predicted without any fit
+            v = ad.gamma_ns_qed((1, 2), mode, N, nf, (0,) * 7)[0, 2]
+            pred = e2q * (e2q * A_ref + es2 * B_ref)
+            scp = max(e2q * e2q * abs(A_ref) + e2q * es2 * (abs(q_hi) + abs(q_lo)) / (CF * TR), 1.0)
+            n += 1
+            rp = abs(v - pred) / scp
+            max_anchor = max(max_anchor, rp)
+            if not rp <= 1e-11:
+                res.fail(
+                    f"ns_qed/{name}/slot=(0,2)/is-abelian-limit",
+                    f"N={N} nf={nf} mode={mode}: entry={v} but e_q^2 (e_q^2 A + e_Sigma^2 B) = {pred} with A from slot (1,1), "
+                    f"B from the QCD nf-term; relative {rp:.3e}",
+                )
+    res.info = {"max_rel_aem2_structure": maxrel, "max_rel_aem2_anchor": max_anchor, "predictions": n}
     res.nontrivial = n > 0
     res.outcome = "aem2:" + ("fail" if res.fails else "ok")
     return res
@@ -284,12 +385,17 @@ def run(ctx):
         "complete product nf 3-6 x QED orders {1..4}x{1,2} x (order 4: both N3LO variants x 17 variation "
         "tuples = 3 uniform + all 14 single-entry deviations; quick tier: the 14 deviations on the (4,2) grid only) x 12 complex N (real, on and off the "
         "inversion contours, near N=1, large |Im N|); per point the three QED grids are compared slot by "
-        "slot with gamma_singlet/gamma_ns; plus 12 N for the O(aem^2) charge structure across nf 3-6; "
+        "slot with gamma_singlet/gamma_ns, the O(aem) non-singlet entries also with e_q^2 gamma_ns^(1,0)/CF; plus 12 N for "
+        "the O(aem^2) charge structure across nf 3-6 (fit at nf=3 predicts nf 4-6; A and B against slot (1,1) and the "
+        "nf-term of the QCD gamma_ns^(2,0); the entry against the fit-free prediction); "
         "non-trivial = at least one grid was produced and compared "
         "(FHMRUVV singlet at nf=6 is refused by both the QCD and the QED entry point)"
     )
     ctx.assumptions += [
         "equality is demanded for identical arguments (order, N, nf, n3lo_ad_variation, use_fhmruvv) of the QCD and QED entry points",
         f"relative tolerance {RTOL:g} on max(largest entry of the slot, 1); zeros must be exact zeros",
-        "quark charges e_u^2=4/9, e_d^2=1/9, NC=3 and the number of up-type flavours nf//2 are typed here",
+        "quark charges e_u^2=4/9, e_d^2=1/9, NC=3, CF=4/3, TR=1/2 and the number of up-type flavours nf//2 are typed here",
+        "known finding singlet_qed/slot=(4,0)/Sdelta-is-ns+ is reported only where the entry equals gamma_ns+ with "
+        "variation[4]:=variation[3] within 1e-12 (FHMRUVV, variation[3]!=variation[4]); these comparisons are counted "
+        "(known_defect_comparisons) and kept out of max_rel_difference; other failures of the entry carry /beyond-known/...",
     ]
